@@ -12,6 +12,16 @@ CLAIMS = {
         text='Static: every path of the root routines binds what it reads (incl. the 1x1 branch); the coupled Newton step, start point, stopping test, retry damping, convergence select, binary matrix power, Rayleigh-quotient power iteration on the masked matrix, eigh clamp/root/error formulas, error provenance and mask prologue / all-padding epilogue of the sibling routines are derived from the current source as value-graph terms and shown equal to the documented formulas. These are necessary conditions of C01; numerical accuracy itself is not decided.',
         note='Trusted: python ast, the pvstatic evaluator (casts transparent, jax primitives uninterpreted), sympy cancellation. Undecided: accuracy/residual bound/finiteness/symmetry (floating point), LOBPCG-deflated path formulas.',
         design='4/C01'),
+    'C03': dict(
+        technique='gate typestate on the gated value graph: every store into a preconditioner slot is a select(isnan(e)|e>=T, old, candidate); sentinel reflexivity on non-refresh arms; guarded-denominator sign analysis',
+        text='Static, over replicated / pmap-quantized / sharded refresh functions and all valuations of (scheduled, interval==1, reuse, metrics): each stored preconditioner array is a pass-through or a select primitive (never arithmetic) between the incoming slot and the candidate, with predicate isnan(e) | e >= inverse_failure_threshold, e reported by the same root computation as the candidate, old value on the true arm; on non-refresh paths e reduces to a sentinel equal to the threshold so the placeholder is rejected; efficient_cond implements predicate?compute():init; denominators of the per-parameter transform are guarded. Necessary conditions of C03; finiteness for given magnitudes is not decided.',
+        note='Trusted: select primitives return one operand bit-for-bit; root routines opaque (C01). Undecided: finite small error implies finite root; update finiteness for given magnitudes.',
+        design='4/C03'),
+    'C04': dict(
+        technique='cadence rules on the gated value graph: count+1 at every state constructor, guard normal form count % interval == 0 with call-site tracing of the step argument, identity-arm (pass-through) check of every guarded refresh, warm-up comparator/polarity, interval lower bound',
+        text='Static: all six update paths rebuild state with count = incoming count + 1; every refresh guard (DS statistics, DS roots in 3 modes x valuations, Tearfree Shampoo x2, Sketchy) normalises to incoming_count % configured_interval == 0 and the count reaching the helpers is state.count unmodified; the not-taken arm returns the incoming slots themselves (statistics, blocks, sketches, metrics; ekfac restore of 5 sketch slots); roots are computed from the statistics of the same step (previous refresh in sharded mode); warm-up switch is count >= start with the preconditioned value on the true side; scheduled interval clamped >= 1. Necessary conditions of C04.',
+        note='Trusted: lax.cond/efficient_cond evaluate one arm and return it bit-for-bit; tree.map is leaf-wise. Undecided: traced non-integer schedule values; numerical agreement of roots with statistics.',
+        design='4/C04'),
 }
 
 NOT_BUILT_REASON = 'checker for this property not built yet (build phase in progress; see DESIGN.md section 9)'
